@@ -6,7 +6,8 @@ for d in seeded/*/; do
   sid=$(basename "$d")
   [ -f "$d/patch.diff" ] || continue
   checks="C08 C09 C14 C15 C17 C20"
-  [ -n "$OWN" ] && checks="${sid%%-*}"        # OWN=1: only the check of the property the change was written against
+  # OWN=1: the check of the property the change was written against, plus every check that caught it before
+  [ -n "$OWN" ] && checks=$(/venv/bin/python -c "import json,sys; m=json.load(open('$d/meta.json')); print(' '.join(sorted(set(['${sid%%-*}'] + m.get('detected_by', [])))))")
   VERIF_WORKERS="${VERIF_WORKERS:-8}" ./tools_seeded.py detect "$sid" $checks 2>&1 | grep -E "^$sid " | cut -c1-160
 done
 mkdir -p /tmp/crossdetect_out && for d in seeded/*/; do cp "$d/meta.json" "/tmp/crossdetect_out/$(basename $d).json"; done
